@@ -2523,6 +2523,14 @@ impl KyroDbService for KyroDBServiceImpl {
                 }
             }
             Some(batch_delete_request::DeleteCriteria::Filter(filter)) => {
+                // A malformed filter (unset oneof, NOT without operand, range without bound)
+                // would match everything: refuse it instead of deleting the collection.
+                if let Err(message) = kyrodb_engine::api_validation::validate_metadata_filter(&filter)
+                {
+                    self.state.metrics.record_error(ErrorCategory::Validation);
+                    return Err(Status::invalid_argument(message));
+                }
+
                 // Combine tenant/namespace constraints into a structured AND filter so the
                 // cold-tier inverted index can accelerate common cases.
                 use kyrodb_engine::proto::metadata_filter::FilterType;
